@@ -15,6 +15,7 @@
  *   --prop C15   eav_setup clause: return value and eav_errstr for every rfc value class
  */
 #include "corpus.h"
+#include <idn2.h>
 #include <dlfcn.h>
 #include <limits.h>
 #include <link.h>
@@ -261,6 +262,11 @@ static void apply(run_t *r, op_t o, const hist_t *h, int check) {
                     if (!strstr(got, "v4=0 v6=0 dom=0")) violation_h("fault", "fault:flag-set", h, "[%s] injected idn code %d: %s", l->name, IDNCODES[o.b], got);
                     char idn[32]; snprintf(idn, sizeof idn, "idn_rc=%d}", IDNCODES[o.b]);
                     if (!strstr(got, idn)) violation_h("fault", "fault:idn_rc-not-reported", h, "[%s] injected idn code %d: %s", l->name, IDNCODES[o.b], got);
+                    /* "... and that library's message for the code": eav_errstr gives the converter's own text, whatever the policy settings */
+                    { const char *ms = l->errstr(obj);
+                      if (!ms || !ms[0]) violation_h("fault", "fault:no-message", h, "[%s] injected idn code %d (tld_check=%d): eav_errstr returned %s", l->name, IDNCODES[o.b], m->tld, ms ? "an empty string" : "NULL");
+                      else if (!strcmp(l->name, "idn2") && strcmp(ms, idn2_strerror(IDNCODES[o.b])))
+                          violation_h("fault", "fault:message-is-not-the-converter's", h, "[%s] injected idn code %d: eav_errstr says \"%s\", idn2_strerror says \"%s\"", l->name, IDNCODES[o.b], ms, idn2_strerror(IDNCODES[o.b])); }
                 }
             }
             if (li == NLIB - 1 && o.t == OP_EMAILF && consumed) m->nfaults++;
@@ -571,8 +577,76 @@ static void pairs_shard(long shard, void *arg) {
     }
 }
 
+/* ---------------------------------------------------------------- C13: cross-mode, cross-object ordered pairs
+ * Hidden state that one call leaves behind for the NEXT call may need a particular first address in a particular mode (a rooted name, an IDN
+ * name, a literal ...) and may show only on a particular second address in ANOTHER mode (upper-case TLD, another family ...).  Feature pool:
+ * 26 domain parts x {as is, upper case, rooted, upper case + rooted} + local-part / degenerate shapes; every ordered pair (A, B) x every ordered
+ * pair of (mode, tld_check) configurations, A on one object, B on a second object (and, same configuration, on the same object); B's outcome must
+ * be the outcome of B on a fresh object in a fresh library state. */
+static char XP[200][300]; static int NXP; static char *XPWANT[4][2][200];
+static void xp_add(const char *a) { if (NXP < 200) snprintf(XP[NXP++], 300, "%s", a); }
+static void xpairs_build(void) {
+    static const char *const DOM[26] = { "a.com", "mail.host.com", "a.org", "a.ac", "a.museum", "a.arpa", "example.com", "a.example.org", "a.test", "localhost", "a.localhost", "a.zz", "a.zzzzq",
+        "a", "a.xn--p1ai", "xn--80a1acny.xn--p1ai", "\xd0\xb6.\xd1\x80\xd1\x84", "\xd0\xbf\xd0\xbe\xd1\x87\xd1\x82\xd0\xb0.com", "a.b.c.d.e.net", "a-b.com", "1.com", "a.co.uk", "a.onion", "a.invalid", "a.info", "b.de" };
+    char t[300];
+    for (int i = 0; i < 26; i++) {
+        snprintf(t, sizeof t, "x@%s", DOM[i]); xp_add(t);
+        snprintf(t, sizeof t, "x@%s.", DOM[i]); xp_add(t);
+        int hi = 0; for (const char *q = DOM[i]; *q; q++) if ((unsigned char)*q >= 0x80) hi = 1;
+        if (hi) { if (i == 16) { xp_add("x@\xd0\x96.\xd0\xa0\xd0\xa4"); xp_add("x@\xd0\x96.\xd0\xa0\xd0\xa4."); } continue; }
+        snprintf(t, sizeof t, "x@%s", DOM[i]); for (char *q = t + 2; *q; q++) *q = (char)toupper((unsigned char)*q); xp_add(t);
+        snprintf(t, sizeof t, "x@%s.", DOM[i]); for (char *q = t + 2; *q; q++) *q = (char)toupper((unsigned char)*q); xp_add(t);
+    }
+    static const char *const OTHER[] = { "x@[1.2.3.4]", "x@[IPv6:::1]", "x@[IPv6:1:2:3:4:5:6:7:8]", "x@[1.2.3.256]", "x@[IPv6:1::2::3]", "x@[1.2.3.4", "x@-a.com", "x@a..com", "x@a.c_m", "x@a.com..",
+        "x@\xd0\xb6\xe3\x80\x82" "com", "x@\xc2\xad.com", "x@a\xff.com", "x@xn--a.com", "x@\xef\xbd\x83\xef\xbd\x8f\xef\xbd\x8d.\xef\xbd\x83\xef\xbd\x8f\xef\xbd\x8d", "x@\xe2\x99\xa5.de",
+        "\"a b\"@a.com", "a..b@a.com", "\"a\"b@a.com", "\xd0\xb6@a.com", "a\x01@a.com", "\"\"@a.com", " @a.com", "\"a\\ b\"@a.com", "a#b@a.com", "a.b@a.COM", "\"q@r\"@a.Org.",
+        "", "@", "x@", "@a.com", "x", "x@@a.com", "abcdefghijklmnopqrstuvwxyzabcdefghijklmnopqrstuvwxyzabcdefghijklm@a.com",
+        "x@abcdefghijklmnopqrstuvwxyzabcdefghijklmnopqrstuvwxyzabcdefghijklm.com" };
+    for (unsigned i = 0; i < sizeof OTHER / sizeof OTHER[0]; i++) xp_add(OTHER[i]);
+    lib_t *l = &LIB[0];
+    for (int m = 0; m < 4; m++) for (int t2 = 0; t2 < 2; t2++) for (int i = 0; i < NXP; i++) {
+        l->ledger_reset(); l->ctx_reset(); lib_restore_statics(0);
+        void *o = l->new_(0); l->init(o); l->set_rfc(o, m); l->set_tld(o, t2); if (l->setup(o)) exit(2);
+        int r = l->is_email(o, XP[i], strlen(XP[i])); char buf[512]; l->outcome(o, r, buf, sizeof buf); XPWANT[m][t2][i] = strdup(buf);
+        l->free_(o); l->delete_(o);
+    }
+}
+static int C_XPAIRS;
+static void xpair_one(int i, int j, int c1, int c2, int same_object) {
+    lib_t *l = &LIB[0]; int m1 = c1 >> 1, t1 = c1 & 1, m2 = c2 >> 1, t2 = c2 & 1;
+    l->ledger_reset(); l->ctx_reset(); lib_restore_statics(0);
+    void *o1 = l->new_(0xA5); l->init(o1); l->set_rfc(o1, m1); l->set_tld(o1, t1); if (l->setup(o1)) exit(2);
+    void *o2 = o1;
+    if (!same_object) { o2 = l->new_(0x5A); l->init(o2); l->set_rfc(o2, m2); l->set_tld(o2, t2); if (l->setup(o2)) exit(2); }
+    char cfg[96]; snprintf(cfg, sizeof cfg, "xpair first=%d m1=%d t1=%d m2=%d t2=%d same=%d", i, m1, t1, m2, t2, same_object);
+    mc_current("xpairs", cfg, XP[j], strlen(XP[j]));
+    l->is_email(o1, XP[i], strlen(XP[i]));
+    if (same_object && c1 != c2) { l->set_rfc(o2, m2); l->set_tld(o2, t2); if (l->setup(o2)) exit(2); }
+    int r = l->is_email(o2, XP[j], strlen(XP[j])); char got[512]; l->outcome(o2, r, got, sizeof got);
+    MC_ADD(C_EVAL, 1); MC_ADD(C_LIBCALLS, 2); MC_ADD(C_XPAIRS, 1);
+    if (strcmp(got, XPWANT[m2][t2][j]))
+        mc_violation("xpairs", same_object ? "xpairs:outcome-depends-on-the-previous-call(same-object,mode-switch)" : "xpairs:outcome-depends-on-a-call-on-another-object", "", cfg, XP[j], strlen(XP[j]),
+                     "after \"%s\" in mode %d (tld_check %d): mode %d (tld_check %d) gives %s ; fresh library state: %s", XP[i], m1, t1, m2, t2, got, XPWANT[m2][t2][j]);
+    l->free_(o1); l->delete_(o1); if (!same_object) { l->free_(o2); l->delete_(o2); }
+}
+static void xpairs_shard(long shard, void *arg) {
+    (void)arg; int i = (int)shard;
+    for (int j = 0; j < NXP; j++) for (int c1 = 0; c1 < 8; c1++) for (int c2 = 0; c2 < 8; c2++) { xpair_one(i, j, c1, c2, 0); xpair_one(i, j, c1, c2, 1); }
+}
+
 static int do_replay(void) {
     mc_replay_t rp; if (mc_load_replay(mc_replay, &rp)) return 2;
+    if (!strcmp(rp.sub, "xpairs")) {
+        xpairs_build(); mc_replay_hit = 0; int j = -1; char a[MC_CASEMAX + 1]; memcpy(a, rp.in, (size_t)rp.len); a[rp.len] = 0;
+        for (int k = 0; k < NXP; k++) if (!strcmp(XP[k], a)) j = k;
+        if (j >= 0) xpair_one((int)mc_cfg_int(rp.cfg, "first", 0), j, (int)(mc_cfg_int(rp.cfg, "m1", 0) * 2 + mc_cfg_int(rp.cfg, "t1", 0)), (int)(mc_cfg_int(rp.cfg, "m2", 0) * 2 + mc_cfg_int(rp.cfg, "t2", 0)), (int)mc_cfg_int(rp.cfg, "same", 0));
+        printf("replay %s: %s\n", mc_replay, mc_replay_hit ? "VIOLATION reproduced" : "no violation"); return mc_replay_hit ? 1 : 0;
+    }
+    if (!strcmp(rp.sub, "pairs")) {
+        pairs_build(); mc_replay_hit = 0; const char *f = strstr(rp.cfg, "first="); char a[MC_CASEMAX + 1]; memcpy(a, rp.in, (size_t)rp.len); a[rp.len] = 0;
+        for (int k = 0; f && k < NPAIR; k++) if (!strcmp(PAIRADDR[k], f + 6)) { pairs_shard(k, NULL); break; }
+        printf("replay %s: %s\n", mc_replay, mc_replay_hit ? "VIOLATION reproduced" : "no violation"); return mc_replay_hit ? 1 : 0;
+    }
     hist_t h; h.n = rp.len / 4; if (h.n > HMAX) h.n = HMAX; memcpy(h.op, rp.in, (size_t)h.n * 4);
     char hs[2048]; hist_str(&h, hs, sizeof hs); printf("history: %s\n", hs);
     mc_replay_hit = 0;
@@ -608,7 +682,7 @@ int main(int argc, char **argv) {
     mc_driver = PROP;
     C_STATES = mc_counter("states"); C_TRANS = mc_counter("transitions"); C_REPLAYS = mc_counter("histories_replayed");
     C_EMAILT = mc_counter("email_transitions_compared_with_fresh_object"); C_LIBCALLS = mc_counter("library_calls");
-    C_FAULTRUNS = mc_counter("fault_runs"); mc_counter("bfs_depth_at_fixpoint"); mc_counter("distinct_email_outcomes"); mc_counter("frontier_left");
+    C_FAULTRUNS = mc_counter("fault_runs"); C_XPAIRS = mc_counter("cross_mode_pairs"); mc_counter("bfs_depth_at_fixpoint"); mc_counter("distinct_email_outcomes"); mc_counter("frontier_left");
     build_long_pool();
     { static const int Q[13] = { 0, 1, 2, 3, 4, 5, 6, 7, 16, 17, 18, 20, 21 }; if (!mc_thorough) { for (int i = 0; i < 13; i++) PIDX[i] = Q[i]; NPOOL = 13; } }
     if (mc_thorough) { NPOOL = 22; NMASK = 4; NPOISON = 4; }
@@ -620,7 +694,7 @@ int main(int argc, char **argv) {
     C_CORPUS = mc_counter("corpus_addresses_through_all_backends");
     if (!strcmp(PROP, "C18corpus")) {
         mc_driver = "C18"; CORPUS_DEEP = mc_thorough; if (corpus_load()) return 2; corpus_objects();
-        static const int PH[] = { CP_TLD, CP_IDN, CP_LONGIDN, CP_ALTDOT, CP_LABELLEN, CP_MAXLIT, CP_EMAIL, CP_DOMAIN, CP_LITERAL, CP_LOCAL, CP_BYTES, CP_CROSS, CP_LONG, CP_SCALARS };
+        static const int PH[] = { CP_TLD, CP_IDN, CP_LONGIDN, CP_ALTDOT, CP_LABELLEN, CP_MAXLIT, CP_LPXDOM, CP_WHOLEDOM, CP_EMAIL, CP_DOMAIN, CP_LITERAL, CP_LOCAL, CP_BYTES, CP_CROSS, CP_LONG, CP_SCALARS };
         policy_build(); mc_parallel("3 backends: all 2^11 allow_tld masks x one address per class x 4 modes", 64, policy_shard, NULL);
         for (unsigned i = 0; i < sizeof PH / sizeof PH[0]; i++) { CURPH = PH[i]; char nm[64]; snprintf(nm, sizeof nm, "3 backends: %.40s", corpus_name(CURPH)); mc_parallel(nm, corpus_shards(CURPH), corpus_shard, NULL); }
         return mc_finish();
@@ -628,6 +702,8 @@ int main(int argc, char **argv) {
     if (!strcmp(PROP, "C15")) { mc_parallel("eav_setup over rfc value classes x prior mode", 1, setup_values, NULL); return mc_finish(); }
     mc_parallel(CTXFAIL ? "BFS to fixpoint (idnkit build, create/initialize failures as transitions)" : FAULTS ? "BFS to fixpoint with IDN fault transitions (<=2 faults per history)" : "BFS to fixpoint over the API menu", 1, bfs, NULL);
     if (!strcmp(PROP, "C13") && !TWO_OBJECTS && MAXDEPTH >= 40) { pairs_build(); mc_parallel("pairs: every ordered pair of the 1296 addresses x@b.XY on one object, 3 configurations", NPAIR, pairs_shard, NULL); }
+    if (!strcmp(PROP, "C13") && !TWO_OBJECTS && MAXDEPTH >= 40) { xpairs_build(); char nmx[160]; snprintf(nmx, sizeof nmx, "xpairs: every ordered pair of %d feature addresses x every ordered pair of 8 (mode, tld_check) configurations, on two objects and on one", NXP);
+        mc_parallel(nmx, NXP, xpairs_shard, NULL); }
     if (FAULTS) mc_parallel("runs of n validations: single fault at every position x every code x buffer; double faults n<=6", mc_thorough ? 50 : 8, fault_runs, NULL);
     /* distinct non-trivial = states reached (each a distinct canonical object state) */
     if (mc_sh->ctr[C_NONTRIV] == 0 || !FAULTS) mc_sh->ctr[C_NONTRIV] += mc_sh->ctr[C_STATES];
